@@ -225,6 +225,12 @@ def _run_shard(modname, comp_idx, shard_idx, n, seed, deadline, outfile, target_
         import hypothesis
         from hypothesis import given
 
+        import warnings
+
+        import numpy as _np
+
+        warnings.filterwarnings("ignore", category=RuntimeWarning)
+        _np.seterr(all="ignore")
         mod = importlib.import_module(modname)
         comp = mod.components()[comp_idx]
         if comp.setup:
